@@ -13,7 +13,8 @@ def alpha(name, sd=None):
     sd = seed() if sd is None else sd
     key = (name, sd)
     if key not in _ALPHA:
-        _ALPHA[key] = {'full': gram.full, 'core': gram.core, 'char': char_alpha, 'twin': twin_alpha}[name](sd)
+        _ALPHA[key] = {'full': gram.full, 'core': gram.core, 'char': char_alpha, 'twin': twin_alpha,
+                       'search': search_alpha}[name](sd)
     return _ALPHA[key]
 
 
@@ -23,6 +24,14 @@ def char_alpha(sd=0):
     texts = ['\r', '\t', '~', '&', '#', '^', '_', 'é', ' ', ' ', N.a + '\r' + N.a, '\t' + N.a]
     cont = {'cmd{}', 'cmd[]', 'group', 'env', 'env{}', 'item', 'item[]', 'm$', 'm[', 'meq'}
     return gram.Alphabet('A_char', N, texts, cont, star=False, eof_comment=False)
+
+
+def search_alpha(sd=0):
+    """the same name as command and as environment, nested through every container kind (C03)"""
+    N = gram.Names(sd)
+    N.x = N.e
+    cont = {'cmd{}', 'cmd[]', 'group', 'env', 'env{}', 'item', 'item[]', 'm$', 'meq'}
+    return gram.Alphabet('A_search', N, [N.a], cont, star=False, comment=False, eof_comment=False)
 
 
 def twin_alpha(sd=0):
@@ -38,6 +47,10 @@ PLAN = {
     'thorough': [('full', 4), ('core', 5)],
     'edit-quick': [('full', 2), ('core', 3), ('twin', 3)],
     'edit-thorough': [('full', 3), ('core', 4), ('twin', 4)],
+    'search-quick': [('full', 2), ('core', 3), ('search', 4)],
+    'search-thorough': [('full', 3), ('core', 4), ('search', 5)],
+    'nav-quick': [('full', 2), ('core', 4)],
+    'nav-thorough': [('full', 3), ('core', 5)],
     'small-quick': [('full', 2), ('core', 3)],
     'small-thorough': [('full', 3), ('core', 4)],
 }
